@@ -448,6 +448,10 @@ func (s *S) pair1(xraw, yraw []uint64, class string, fullProbes bool) {
 func (s *S) tPair(a, b []uint64) {
 	A, B := zl(a), zl(b)
 	s.t.check(lbl("FromUnion", a, b), eqL(vkit.App("cu_FromUnion", vkit.List([]string{A, B})), zl(fromCU(s2.CellUnionFromUnion(toCU(a), toCU(b))))))
+	if s.g.n(4) == 0 {
+		z, _ := s.g.union(6)
+		s.t.check(lbl("FromUnion3", a, b, z), eqL(vkit.App("cu_FromUnion", vkit.List([]string{A, B, zl(z)})), zl(fromCU(s2.CellUnionFromUnion(toCU(a), toCU(b), toCU(z))))))
+	}
 	var got []uint64
 	if p, _ := try(func() { got = fromCU(s2.CellUnionFromIntersection(toCU(a), toCU(b))) }); !p {
 		s.t.check(lbl("FromIntersection", a, b), eqL(vkit.App("cu_FromIntersection", A, B), zl(got)))
